@@ -36,6 +36,32 @@ src/inner.h = T, RFC = R):
   client auth  no certificate upon request: BR_ERR_NO_CLIENT_AUTH(29) on the server, tolerated under
                BR_OPT_TOLERATE_NO_CLIENT_AUTH (H).
   errors       a sent fatal alert a gives last_error 512+a, a received one 256+a (H).
+  ServerHello  (client side, kind scripted_srv; a scripted peer answers a BearSSL client.) The client
+               goes on, without error, iff: version within its [min, max] (H: BR_ERR_UNSUPPORTED_VERSION
+               "incoming protocol or record version is unsupported") and equal to the version of the
+               record that carries it (T: "Enforce chosen version for subsequent records in both
+               directions"; H: BR_ERR_BAD_VERSION, version_in); session ID of at most 32 bytes (H:
+               BR_ERR_OVERSIZED_ID); a cipher suite that the client listed (H: BR_ERR_BAD_CIPHER_SUITE
+               "a cipher suite that we did not claim to support"), that is a cipher suite and not a
+               signalling value (R 7507 section 4, R 5746 3.3: SCSVs cannot be negotiated) and that fits
+               the version (T: "suites that don't use HMAC/SHA-1 are for TLS-1.2 only"); compression 0
+               (H: BR_ERR_BAD_COMPRESSION); every extension of a type the client sent, at most once (H:
+               BR_ERR_EXTRA_EXTENSION; T lists the seven types looked at); server_name empty (H:
+               BR_ERR_BAD_SNI), max_fragment_length equal to the client's (H: BR_ERR_BAD_FRAGLEN; T),
+               renegotiation_info empty on a first handshake (T; H: BR_ERR_BAD_SECRENEG), ALPN with a
+               single name (T) which - under BR_OPT_FAIL_ON_ALPN_MISMATCH - is one of the client's;
+               a ServerHello that returns the session ID the client offered resumes that session and
+               must carry its version and suite (H: BR_ERR_RESUME_MISMATCH), then ChangeCipherSpec
+               follows (H: BR_ERR_BAD_CCS, BR_ERR_UNEXPECTED) instead of a Certificate;
+               without the flag a foreign name is "report no matching name and carry on" (H); bodies of
+               signature_algorithms, supported_groups, ec_point_formats are ignored (T); lengths add up
+               (T: open-elt / close-elt). The next message must be a Certificate (H: BR_ERR_UNEXPECTED).
+               The error code is judged where H pins it down, else only "fails" (unjudged_error_code_*).
+               H documents no alert for these refusals (a sent alert a would show as last_error 512+a):
+               alerts are counted, not demanded. After acceptance: br_ssl_engine_get_version (H: "set
+               after ... receiving (for a client) the ServerHello"), the session's suite, the selected
+               protocol, br_ssl_engine_get_mfln_negotiated = extension echoed, reneg = 2 / 1 (H, field
+               comment: "peer supports / does not support secure renegotiation").
 Where several documented failures apply at once their precedence is not documented: any of
 them is accepted. What is not documented is executed but not judged (counters unjudged_*).
 """
@@ -212,6 +238,111 @@ def parse_client_hello(hexs):
     h['reneg_ext'] = ext.get(0xFF01)
     h['max_frag'] = ext.get(1)
     return h
+
+
+# error codes of inc/bearssl_ssl.h used for the client's refusals
+ERR_BAD_PARAM, ERR_UNSUPPORTED_VERSION, ERR_BAD_VERSION, ERR_UNEXPECTED = 1, 3, 4, 10
+ERR_OVERSIZED_ID, ERR_BAD_CIPHER_SUITE, ERR_BAD_COMPRESSION, ERR_BAD_FRAGLEN = 15, 16, 17, 18
+ERR_BAD_SECRENEG, ERR_EXTRA_EXTENSION, ERR_BAD_SNI = 19, 20, 21
+ERR_BAD_CCS, ERR_RESUME_MISMATCH = 12, 25
+SERVER_EXT_KNOWN = (0x0000, 0x0001, 0xFF01, 0x000D, 0x000A, 0x000B, 0x0010)
+
+
+class NotYet(Exception):
+    pass
+
+
+def scan_server_flight(recs):
+    """recs: [[record type, record version, payload bytes], ...], the first one of type handshake. Strict,
+    sequential reading of the first handshake message. -> dict: status 'record-major' | 'incomplete' | 'complete';
+    the fields of the ServerHello as far as they could be read, framing = list of structural defects (length
+    fields that contradict each other; they are judged against the declared lengths, so they show before the last
+    byte has arrived), ext = None or list of (type, body), leftover = bytes of the handshake stream after the
+    message, rec2_bad = a later record carries another version than the first one (reading beyond the first record
+    fails), ccs = payload of a ChangeCipherSpec record that follows the handshake records, else None."""
+    out = dict(status='complete', framing=[], ext=None, leftover=b'', rec2_bad=False, ccs=None, fields={})
+    rv = recs[0][1]
+    out['rv'] = rv
+    if (rv >> 8) != 3:
+        out['status'] = 'record-major'
+        return out
+    stream = bytes(recs[0][2])
+    for t, v, payload in recs[1:]:
+        if v != rv:
+            out['rec2_bad'] = True
+            break
+        if t != 22:
+            out['ccs'] = bytes(payload)
+            break
+        stream += bytes(payload)
+    f = out['fields']
+    if len(stream) >= 1:
+        f['msg_type'] = stream[0]
+    if len(stream) < 4:
+        out['status'] = 'incomplete'
+        return out
+    ml = int.from_bytes(stream[1:4], 'big')
+    if len(stream) < 4 + ml:
+        out['status'] = 'incomplete'
+    else:
+        out['leftover'] = stream[4 + ml:]
+    data = stream[4:]
+    pos = [0]
+
+    def rd(n, lim):
+        """n bytes of a structure that declares lim more bytes"""
+        if n > lim:
+            raise Malformed('short')
+        if pos[0] + n > len(data):
+            raise NotYet()
+        v = data[pos[0]:pos[0] + n]
+        pos[0] += n
+        return v
+
+    def num(n, lim):
+        return int.from_bytes(rd(n, lim), 'big')
+
+    try:
+        try:
+            f['version'] = num(2, ml)
+            rd(32, ml - 2)
+            f['sid_len'] = num(1, ml - 34)
+            f['sid'] = bytes(rd(f['sid_len'], ml - 35))
+            left = ml - 35 - f['sid_len']
+            f['suite'] = num(2, left)
+            f['compression'] = num(1, left - 2)
+            left -= 3
+        except Malformed:
+            out['framing'].append('message shorter than its fixed fields')
+            return out
+        if left == 0:
+            return out
+        try:
+            bl = num(2, left)
+        except Malformed:
+            out['framing'].append('one byte after the compression method')
+            return out
+        left -= 2
+        if bl > left:
+            out['framing'].append('extension block longer than the message')
+            return out
+        if bl < left:
+            out['framing'].append('bytes after the extension block')
+        out['ext'] = []
+        while bl:
+            if bl < 4:
+                out['framing'].append('truncated extension header')
+                break
+            t, el = num(2, bl), num(2, bl - 2)
+            bl -= 4
+            if el > bl:
+                out['framing'].append('extension longer than the block')
+                break
+            out['ext'].append((t, bytes(rd(el, bl))))
+            bl -= el
+    except NotYet:
+        pass
+    return out
 
 
 def parse_server_hello(hexs):
@@ -438,7 +569,8 @@ class Checker:
             d['C'] = case['C']
         else:
             d['client_hello'] = case.get('ch')
-        d['observed'] = {k: case.get(k) for k in ('oc', 'os', 'alerts', 'ske', 'sh') if k in case}
+        d['observed'] = {k: case.get(k) for k in ('oc', 'os', 'alerts', 'ske', 'sh', 'recs', 'plan', 'cx', 'mfln',
+                                                  'renegst', 'left', 'sess') if k in case}
         d['replay'] = 'h_tls15 --seed %d --only %d --log <file>' % (case['seed'], case['i'])
         self.viols.append(('C15:' + key, what, d))
 
@@ -735,6 +867,284 @@ class Checker:
                 self.viol('sni-mismatch', 'server reports server name %r, hello carried %r'
                           % (bytes.fromhex(osv['name']), ch['sni']), case)
 
+    # ---- a scripted ServerHello against a client engine
+    def _srv_client_ok(self, C, cx):
+        """the caller's obligations for the client configurations of this kind"""
+        if not (TLS10 <= C['vmin'] <= C['vmax'] <= TLS12):
+            return 'version range'
+        su = list(C['suites'])
+        if su and su[-1] == FALLBACK_SCSV:
+            su = su[:-1]
+        if not su or len(su) != len(set(su)) or any(s not in SUITES for s in su):
+            return 'suite list'
+        hs = set(C['hashes'])
+        if C['vmin'] < TLS12 and not {MD5, SHA1} <= hs:
+            return 'MD5/SHA-1 missing below TLS 1.2'
+        for s in su:
+            p = SUITES[s]
+            if (p['mac'] is not None and p['mac'] not in hs) or p['prf'] not in hs:
+                return 'suite without its hash functions'
+            if not C['curves'] and p['kx'] != 'RSA':
+                return 'EC suite without a curve'
+            if cx['nosig'] and p['kx'].startswith('ECDHE'):
+                return 'ECDHE suite without signature verification'
+        if not set(C['curves']) <= {23, 24, 25, 29}:
+            return 'curves'
+        if len(C['alpn']) != len(set(C['alpn'])) or any(not a for a in C['alpn']):
+            return 'alpn'
+        return None
+
+    def check_scripted_srv(self, case):
+        C, cx, oc = case['C'], case['cx'], case['oc']
+        self.stat('cases_scripted_srv')
+        why = self._srv_client_ok(C, cx)
+        if why:
+            self.stat('unjudged_precondition')
+            return
+        if case['reset'][0] != 1:
+            self.viol('reset-failed', 'client reset failed for a supported configuration', case)
+            return
+        if case.get('mon_failed'):
+            self.stat('unjudged_monitor_failed')
+            return
+
+        # ---- what the client put on the wire must be its configuration; it also tells which extensions it sent
+        try:
+            ch = parse_client_hello(case['ch'])
+        except (Malformed, TypeError, ValueError):
+            self.viol('client-offer-mismatch:undecodable', 'ClientHello not decodable: %r' % case.get('ch'), case)
+            return
+        self.stat('cmp_client_offer')
+        hs = sorted(set(C['hashes']) & {2, 3, 4, 5, 6})
+        offer = [
+            ('version', ch['version'], C['vmax']),
+            ('suites', ch['suites'], C['suites']),
+            ('compression', ch['compression'], [0]),
+            ('sig-algs', None if ch['sig_algs'] is None else sorted(set(ch['sig_algs'])),
+             None if cx['nosig'] else sorted((h, s) for h in hs for s in (1, 3))),
+            ('curves', sorted(ch['curves'] or []), sorted(C['curves'])),
+            ('point-formats', 11 in ch['ext_types'], bool(C['curves'])),
+            ('alpn', ch['alpn'], [a.encode() for a in C['alpn']] or None),
+            ('sni', ch['sni'], bytes.fromhex(C['sni']) if C['sni'] else None),
+            ('reneg', ch['reneg_ext'], b'\x00'),
+        ]
+        for f, got, want in offer:
+            if got != want:
+                self.viol('client-offer-mismatch:' + f, 'ClientHello %s is %r, configuration says %r' % (f, got, want), case)
+                return
+        if len(ch['ext_types']) != len(set(ch['ext_types'])):
+            self.viol('client-offer-mismatch:duplicate-extension', 'ClientHello extensions %s' % ch['ext_types'], case)
+            return
+        if ch['max_frag'] is not None and (len(ch['max_frag']) != 1 or not 1 <= ch['max_frag'][0] <= 4):
+            self.viol('client-offer-mismatch:max-fragment-length', 'ClientHello max_fragment_length %r' % ch['max_frag'], case)
+            return
+        self.stat('srvhello_client_sent_mfl' if ch['max_frag'] is not None else 'srvhello_client_sent_no_mfl')
+        sent = set(ch['ext_types'])
+        offered = [a.encode() for a in C['alpn']]
+        alpn_flag = bool(C['flags'] & OPT_ALPN_FAIL)
+        for name in case.get('plan', []):
+            self.stat('srvhello_plan_' + name.replace('-', '_'))
+
+        # ---- the reference: defects of the flight, each with the documented error codes (None: not pinned down)
+        recs = [(t, v, bytes.fromhex(x)) for t, v, x in case['recs']]
+        sess = case.get('sess')
+        self.stat('srvhello_client_offers_session' if sess else 'srvhello_client_without_session')
+        if ch['session_id'] != (bytes.fromhex(sess['id']) if sess else b''):
+            self.viol('client-offer-mismatch:session-id', 'ClientHello session ID %r, session to resume %r'
+                      % (ch['session_id'], sess), case)
+            return
+        resumed = False
+        fl = scan_server_flight(recs)
+        F = fl['fields']
+        defects = {}
+        notes = []
+        if fl['status'] == 'record-major':
+            defects['record_major_version'] = {ERR_UNSUPPORTED_VERSION}
+        elif F.get('msg_type') is not None and F['msg_type'] != 2:
+            defects['not_a_server_hello'] = {ERR_UNEXPECTED} if F['msg_type'] != 0 else None
+        else:
+            ver, suite = F.get('version'), F.get('suite')
+            if ver is not None:
+                if not C['vmin'] <= ver <= C['vmax']:
+                    defects['version_out_of_range'] = {ERR_UNSUPPORTED_VERSION}
+                if ver != fl['rv']:
+                    defects['record_version_differs'] = {ERR_BAD_VERSION}
+            if F.get('sid_len', 0) > 32:
+                defects['oversized_id'] = {ERR_OVERSIZED_ID}
+            # the client's own session ID comes back: abbreviated handshake with the parameters of that session
+            resumed = bool(sess) and F.get('sid') == ch['session_id']
+            if resumed and suite is not None and (ver != sess['ver'] or suite != sess['suite']):
+                defects['resume_mismatch'] = {ERR_RESUME_MISMATCH}
+            if suite is not None:
+                if suite not in C['suites']:
+                    defects['suite_not_offered'] = {ERR_BAD_CIPHER_SUITE}
+                elif suite not in SUITES:
+                    defects['suite_is_signalling_value'] = None
+                elif SUITES[suite]['only12'] and ver < TLS12:
+                    defects['suite_needs_tls12'] = None
+            if F.get('compression', 0) != 0:
+                defects['compression'] = {ERR_BAD_COMPRESSION}
+            if fl['framing']:
+                defects['framing'] = None
+                notes += fl['framing']
+            seen = set()
+            for t, body in fl['ext'] or []:
+                if t not in SERVER_EXT_KNOWN or t not in sent:
+                    defects['extension_not_solicited'] = {ERR_EXTRA_EXTENSION}
+                    continue
+                if t in seen:
+                    defects['extension_duplicated'] = {ERR_EXTRA_EXTENSION}
+                    continue
+                seen.add(t)
+                if t == 0x0000 and body != b'':
+                    defects['sni_not_empty'] = {ERR_BAD_SNI}
+                elif t == 0x0001:
+                    if len(body) != 1:
+                        defects['mfl_malformed'] = None
+                    elif body != ch['max_frag']:
+                        defects['mfl_differs'] = {ERR_BAD_FRAGLEN}
+                elif t == 0xFF01 and body != b'\x00':
+                    if len(body) >= 2 and body[0] == len(body) - 1:
+                        defects['reneg_info_not_empty'] = {ERR_BAD_SECRENEG}
+                    else:
+                        defects['reneg_info_malformed'] = None
+                elif t == 0x0010:
+                    name = None
+                    if len(body) >= 3 and int.from_bytes(body[:2], 'big') == len(body) - 2 and body[2] == len(body) - 3:
+                        name = body[3:]
+                    if name is None:
+                        defects['alpn_malformed'] = None
+                    elif name not in offered:
+                        if alpn_flag:
+                            defects['alpn_name_not_offered_flag'] = None
+                        else:
+                            notes.append('alpn-tolerated')
+        complete = fl['status'] != 'incomplete'
+        if fl['status'] == 'incomplete' and fl['rec2_bad']:
+            # the rest of the message would have to come in a record of another version
+            defects['later_record_version_differs'] = {ERR_BAD_VERSION}
+            complete = True
+        sel_alpn, mfl_echo, reneg_echo = None, False, False
+        if complete and not defects:
+            for t, body in fl['ext'] or []:
+                if t == 0x0010 and 'alpn-tolerated' not in notes:
+                    sel_alpn = body[3:].decode('latin-1')
+                mfl_echo |= t == 0x0001
+                reneg_echo |= t == 0xFF01
+            # what follows the ServerHello: a Certificate message, or ChangeCipherSpec when the session is resumed
+            lo = fl['leftover']
+            self.stat('srvhello_resumed' if resumed else 'srvhello_full_handshake')
+            if resumed:
+                if lo:
+                    defects['handshake_message_instead_of_ccs'] = {ERR_UNEXPECTED}
+                elif fl['rec2_bad']:
+                    defects['later_record_version_differs'] = {ERR_BAD_VERSION}
+                elif fl['ccs'] is not None:
+                    if fl['ccs'] != b'\x01':
+                        defects['malformed_ccs'] = {ERR_BAD_CCS}
+                    else:
+                        self.stat('srvhello_resumed_ccs_taken')
+            elif lo:
+                if lo[0] == 0:
+                    self.stat('unjudged_srvhello_followed_by_hello_request')
+                    return
+                if lo[0] != 11:
+                    if len(lo) < 4:
+                        # the type may be looked at when the 4-byte message header is there
+                        self.stat('unjudged_srvhello_next_header_incomplete')
+                        return
+                    defects['next_message_not_certificate'] = {ERR_UNEXPECTED}
+            elif fl['rec2_bad']:
+                defects['later_record_version_differs'] = {ERR_BAD_VERSION}
+            elif fl['ccs'] is not None:
+                defects['ccs_instead_of_certificate'] = {ERR_UNEXPECTED}
+
+        for d in defects:
+            self.stat('srvhello_defect_' + d)
+        if 'alpn-tolerated' in notes:
+            self.stat('srvhello_alpn_foreign_name_without_flag')
+        alerts_out = self._fatal_alerts(case, 0)
+        self._check_alert_records(case)
+        failed = oc['err'] != 0 or oc['closed']
+
+        # ---- message whose end has not arrived: the client may wait, or already refuse what it has seen
+        if not complete:
+            self.stat('expect_srvhello_incomplete')
+            self.stat('unjudged_srvhello_incomplete_message')
+            if failed and not defects:
+                self.viol('srvhello:failed-on-incomplete-message', 'client failed (err %d) on the well-formed beginning of a '
+                          'ServerHello whose end has not arrived' % oc['err'], case)
+            return
+
+        self.stat('cmp_srvhello_outcome')
+        # never a suite the client did not list
+        self.stat('cmp_srvhello_suite_offered')
+        if oc['suite'] != 0 and (oc['suite'] not in C['suites'] or oc['suite'] not in SUITES):
+            self.viol('srvhello:reports-suite-not-offered', 'client reports cipher suite %04x; it offered %s'
+                      % (oc['suite'], ['%04x' % x for x in C['suites']]), case)
+
+        if defects:
+            self.stat('expect_srvhello_refuse')
+            self.stat('srvhello_single_defect' if len(defects) == 1 else 'srvhello_several_defects')
+            desc = ', '.join(sorted(defects)) + (' (%s)' % '; '.join(notes) if notes else '')
+            if not (oc['err'] != 0 and oc['closed']):
+                self.viol('srvhello:accepted-' + sorted(defects)[0].replace('_', '-'),
+                          'client carries on (err %d, closed %d, version %04x, suite %04x) after a ServerHello with: %s'
+                          % (oc['err'], oc['closed'], oc['ver'], oc['suite'], desc), case)
+                return
+            self.stat('srvhello_refused')
+            self.stat('srvhello_refused_with_alert' if alerts_out else 'srvhello_refused_without_alert')
+            if any(v is None for v in defects.values()):
+                for d, v in defects.items():
+                    if v is None:
+                        self.stat('unjudged_error_code_' + d)
+            else:
+                self.stat('cmp_srvhello_error_code')
+                allowed = set().union(*defects.values())
+                if oc['err'] not in allowed:
+                    self.viol('srvhello:error-code:' + sorted(defects)[0].replace('_', '-'),
+                              'client last_error %d, documented %s for: %s' % (oc['err'], sorted(allowed), desc), case)
+            # a sent fatal alert shows in the status
+            if alerts_out:
+                self.stat('cmp_error_code')
+                if oc['err'] != 512 + alerts_out[0]:
+                    self.viol('error-code-mismatch', 'client sent fatal alert %d but reports last_error %d'
+                              % (alerts_out[0], oc['err']), case)
+            return
+
+        # ---- acceptance expected
+        self.stat('expect_srvhello_accept')
+        if failed:
+            self.viol('srvhello:unexpected-refusal', 'client failed (err %d) on an acceptable ServerHello (version %04x, '
+                      'suite %04x, extensions %s)' % (oc['err'], F['version'], F['suite'],
+                                                      ['%04x' % t for t, _ in fl['ext'] or []]), case)
+            return
+        self.stat('srvhello_accepted')
+        if case['alerts']:
+            self.viol('alert-mismatch', 'alert from a client that accepted the ServerHello: %s' % case['alerts'], case)
+        if case['hs'][0] != [1]:
+            self.viol('srvhello:client-ran-ahead', 'client handshake messages %s before the server flight is over'
+                      % case['hs'][0], case)
+        self.stat('cmp_srvhello_version')
+        if oc['ver'] != F['version']:
+            self.viol('version-mismatch', 'client reports version %04x, ServerHello says %04x' % (oc['ver'], F['version']), case)
+        self.stat('cmp_srvhello_suite')
+        if oc['suite'] != F['suite']:
+            self.viol('suite-mismatch', 'client reports suite %04x, ServerHello says %04x' % (oc['suite'], F['suite']), case)
+        self.stat('cmp_srvhello_alpn')
+        if oc['proto'] != sel_alpn:
+            self.viol('alpn-mismatch', 'client reports protocol %r, ServerHello selects %r (client names %s, flag %d)'
+                      % (oc['proto'], sel_alpn, C['alpn'], alpn_flag), case)
+        self.stat('cmp_srvhello_mfln')
+        self.stat('srvhello_mfl_echoed' if mfl_echo else 'srvhello_mfl_not_echoed')
+        if bool(case['mfln']) != mfl_echo:
+            self.viol('srvhello:mfln-flag', 'br_ssl_engine_get_mfln_negotiated() is %d, extension %s in the ServerHello'
+                      % (case['mfln'], 'echoed' if mfl_echo else 'absent'), case)
+        self.stat('cmp_srvhello_reneg')
+        if case['renegst'] != (2 if reneg_echo else 1):
+            self.viol('srvhello:reneg-status', 'reneg status %d after a ServerHello %s renegotiation_info'
+                      % (case['renegst'], 'with' if reneg_echo else 'without'), case)
+
     def check_line(self, line):
         try:
             case = json.loads(line)
@@ -746,6 +1156,8 @@ class Checker:
         try:
             if case['kind'] == 'scripted':
                 self.check_scripted(case)
+            elif case['kind'] == 'scripted_srv':
+                self.check_scripted_srv(case)
             else:
                 self.check_pair(case)
         except Malformed as ex:
